@@ -164,6 +164,181 @@ Definition desc_link_id (c : Z) : Z := let '(_, l, _, _) := nth (Z.to_nat c) tx_
 Definition desc_has_handler (d : dir) (c : Z) : bool :=
   let '(_, _, rx, tx) := nth (Z.to_nat c) tx_desc (-1, -1, 0, 0) in match d with DL => negb (rx =? 0) | UL => negb (tx =? 0) end.
 
+(* ------------------------------------------------------------------ trxcon: the consumers of the frame lookup (sched_trx.c)
+   l1sched_handle_rx_burst() with its helper subst_frame_loss(), l1sched_pull_burst(), l1sched_handle_rx_probe().
+   C integers: bi->fn, lchan->tdma.last_proc are uint32_t; `int elapsed = fn - last_proc` is the 32-bit difference read as int;
+   GSM_TDMA_FN_INC(fn) is fn = (fn + 1) % GSM_TDMA_HYPERFRAME on uint32_t; tdma.num_proc / num_lost are unsigned long (LP64: 64 bit);
+   handle_rx_burst keeps the row index in a uint8_t (trx_frame_rx), subst_frame_loss / pull_burst / rx_probe in unsigned int (trx_frame).
+   errno values (Linux): EIO 5, EAGAIN 11, ENODEV 19, EINVAL 22, EALREADY 114.  Ciphering (lchan->a5.algo) only changes burst bits
+   and is left out; so is the hand-over RACH override of pull_burst (a queued RACH primitive replaces the handler, not the lchan). *)
+
+Definition s32 (x : Z) : Z := let y := u32 x in if y <? 2147483648 then y else y - 4294967296.
+Definition u64 (x : Z) : Z := x mod 18446744073709551616.
+
+(* one channel state (struct l1sched_lchan_state): active, tdma.num_proc, tdma.num_lost, tdma.last_proc *)
+Record chst := mkst { cs_active : bool; cs_nproc : Z; cs_nlost : Z; cs_last : Z }.
+(* the channel states of a timeslot (ts->lchans), by lchan type *)
+Definition tsst := list (Z * chst).
+
+Fixpoint find_st (c : Z) (s : tsst) : option chst :=
+  match s with
+  | [] => None
+  | (c', st) :: tl => if c' =? c then Some st else find_st c tl
+  end.
+
+Fixpoint set_st (c : Z) (v : chst) (s : tsst) : tsst :=
+  match s with
+  | [] => []
+  | (c', st) :: tl => if c' =? c then (c', v) :: tl else (c', st) :: set_st c v tl
+  end.
+
+Definition st_active (s : tsst) (c : Z) : bool := match find_st c s with Some st => cs_active st | None => false end.
+
+(* checked access to l1sched_lchan_desc[chan] *)
+Definition desc_row (c : Z) : option (Z*Z*Z*Z) :=
+  if (0 <=? c) && (c <? tx_CHAN_MAX) then nth_error tx_desc (Z.to_nat c) else None.
+
+(* GSM_TDMA_FN_INC on a uint32_t *)
+Definition fn_inc (f : Z) : Z := u32 (f + 1) mod 2715648.
+
+(* the frame numbers the loss substitution walks through: n increments starting after f *)
+Fixpoint fn_walk (n : nat) (f : Z) : list Z :=
+  match n with O => [] | S n' => fn_inc f :: fn_walk n' (fn_inc f) end.
+
+(* elapsed = fn - last_proc (int); >= HYPERFRAME/2: -= HYPERFRAME; < -HYPERFRAME/2: += HYPERFRAME *)
+Definition rx_elapsed (fn lp : Z) : Z :=
+  let e := s32 (fn - lp) in
+  if e >=? 1357824 then e - 2715648 else if e <? -1357824 then e + 2715648 else e.
+
+(* a handler call: (lchan type, bi->fn, bi->bid) *)
+Definition rxcall := (Z * Z * Z)%type.
+
+(* for (i = 0; i < elapsed - 1; i++) { fp = &mf->frames[GSM_TDMA_FN_INC(bi.fn) % mf->period]; if (fp->dl_chan != lchan->type) continue;
+   bi.bid = fp->dl_bid; handler(lchan, &bi); ... }      None: a row outside the table is read *)
+Fixpoint subst_loop (L : layout) (c : Z) (n : nat) (f : Z) : option (list rxcall) :=
+  match n with
+  | O => Some []
+  | S n' =>
+      let f' := fn_inc f in
+      match trx_frame L f' with
+      | FrOk fr =>
+          match subst_loop L c n' f' with
+          | None => None
+          | Some r => Some (if fr_chan DL fr =? c then (c, f', fr_bid DL fr) :: r else r)
+          end
+      | _ => None
+      end
+  end.
+
+Inductive substres :=
+| SubOOB                          (* a lookup left the table *)
+| SubRc (rc : Z)                  (* returned before the loop *)
+| SubOk (calls : list rxcall).    (* the dummy bursts handed to the handler, in order; returns 0 *)
+
+Definition subst_frame_loss (L : layout) (c : Z) (st : chst) (fn : Z) : substres :=
+  if cs_nproc st =? 0 then SubRc (-11)
+  else
+    let e := rx_elapsed fn (cs_last st) in
+    if e <? 0 then SubRc (-114)
+    else if e >? ly_period L then SubRc (-5)
+    else if e =? 0 then SubRc (-5)
+    else match subst_loop L c (Z.to_nat (e - 1)) (cs_last st) with None => SubOOB | Some cs => SubOk cs end.
+
+(* statistics update inside the loop: per substituted burst last_proc = bi.fn; num_proc++; num_lost++ *)
+Definition st_after_subst (st : chst) (cs : list rxcall) : chst :=
+  match cs with
+  | [] => st
+  | _ => let n := Z.of_nat (length cs) in
+         mkst (cs_active st) (u64 (cs_nproc st + n)) (u64 (cs_nlost st + n)) (let '(_, f, _) := last cs (0, 0, 0) in f)
+  end.
+
+(* handler(lchan, bi); last_proc = bi->fn; if (++num_proc == 0) num_proc = 1 *)
+Definition st_after_direct (st : chst) (fn : Z) : chst :=
+  let n := u64 (cs_nproc st + 1) in
+  mkst (cs_active st) (if n =? 0 then 1 else n) (cs_nlost st) fn.
+
+Inductive rxres :=
+| RxDivZero | RxOOB               (* fn % 0 / a row outside the frames table is read *)
+| RxDescOOB                       (* l1sched_lchan_desc[] is read outside 0 .. _L1SCHED_CHAN_MAX-1 *)
+| RxOk (rc bid : Z) (sub : list rxcall) (dir : option rxcall) (s : tsst).
+                                  (* return code, bi->bid, the substituted handler calls, the call for the burst itself, states *)
+
+(* l1sched_handle_rx_burst() on a configured timeslot with layout L and channel states s *)
+Definition rx_burst (L : layout) (s : tsst) (fn : Z) : rxres :=
+  match trx_frame_rx L fn with
+  | FrDivZero => RxDivZero
+  | FrOOB => RxOOB
+  | FrOk fr =>
+      let c := fr_chan DL fr in
+      let bid := fr_bid DL fr in
+      match desc_row c with
+      | None => RxDescOOB
+      | Some (_, _, rx, _) =>
+          if rx =? 0 then RxOk (-19) bid [] None s
+          else
+            match find_st c s with
+            | None => RxOk (-19) bid [] None s
+            | Some st =>
+                if negb (cs_active st) then RxOk 0 bid [] None s
+                else
+                  match subst_frame_loss L c st fn with
+                  | SubOOB => RxOOB
+                  | SubRc rc =>
+                      if rc =? -114 then RxOk (-114) bid [] None s
+                      else RxOk 0 bid [] (Some (c, fn, bid)) (set_st c (st_after_direct st fn) s)
+                  | SubOk cs =>
+                      RxOk 0 bid cs (Some (c, fn, bid)) (set_st c (st_after_direct (st_after_subst st cs) fn) s)
+                  end
+            end
+      end
+  end.
+
+Definition rx_calls (sub : list rxcall) (dir : option rxcall) : list rxcall :=
+  sub ++ match dir with Some d => [d] | None => [] end.
+
+(* the burst id column as a function of the frame number *)
+Definition dl_bid_at (L : layout) (f : Z) : Z := match trx_frame L f with FrOk fr => fr_bid DL fr | _ => -1 end.
+
+(* l1sched_pull_burst(): br->bid and the lchan type whose tx handler is called (at most one) *)
+Inductive txres := TxDivZero | TxOOB | TxDescOOB | TxOk (bid : Z) (calls : list Z).
+
+Definition tx_pull (L : layout) (s : tsst) (fn : Z) : txres :=
+  match trx_frame L fn with
+  | FrDivZero => TxDivZero
+  | FrOOB => TxOOB
+  | FrOk fr =>
+      let c := fr_chan UL fr in
+      match desc_row c with
+      | None => TxDescOOB
+      | Some (_, _, _, tx) =>
+          TxOk (fr_bid UL fr) (if negb (tx =? 0) && st_active s c then [c] else [])
+      end
+  end.
+
+(* l1sched_handle_rx_probe(): return code and probe->flags (L1SCHED_PROBE_F_ACTIVE = 1) *)
+Inductive prres := PrDivZero | PrOOB | PrDescOOB | PrOk (rc flags : Z).
+
+Definition rx_probe (L : layout) (s : tsst) (fn flags : Z) : prres :=
+  match trx_frame L fn with
+  | FrDivZero => PrDivZero
+  | FrOOB => PrOOB
+  | FrOk fr =>
+      let c := fr_chan DL fr in
+      match desc_row c with
+      | None => PrDescOOB
+      | Some (_, _, rx, _) =>
+          if rx =? 0 then PrOk (-19) flags
+          else match find_st c s with
+               | None => PrOk (-19) flags
+               | Some st => PrOk 0 (if cs_active st then Z.lor flags 1 else flags)
+               end
+      end
+  end.
+
+(* executable checker for the sweep of Proofs/MframeRxP.v: the period of every layout with frames divides the hyperframe *)
+Definition has_frames_cfg (cfg : Z) : bool := negb (cfg =? tx_GSM_PCHAN_NONE).
+Definition chk_hyper (l : layout) : bool := negb (has_frames_cfg (ly_cfg l)) || (2715648 mod ly_period l =? 0).
+
 (* ------------------------------------------------------------------ the specification table: task <-> (combination, timeslots, lchan, SACCH lchan) *)
 
 Inductive mode :=
@@ -437,4 +612,153 @@ Definition w_c11_find_bad (a : list Z) : list Z :=
   match a with
   | [fnmax] => match find_bad_row fnmax with Some (ri, tn, cur) => [ri; tn; cur] | None => [] end
   | _ => [-999]
+  end.
+
+(* ------------------------------------------------------------------ wire functions for the consumers of the lookup (charness/c11_trxcon_cfg.c rx|tx|probe) *)
+
+(* l1sched_configure_ts(cfg) on timeslot tn as seen by the later calls: None = the result this model has no reading for;
+   Some (rc, None) = ts->mf_layout stays NULL; Some (0, Some (L, s)) = layout and fresh channel states (the AUTO ones active) *)
+Definition desc_auto (c : Z) : bool := negb (nth (Z.to_nat c) tx_desc_auto 0 =? 0).
+
+Definition ts_configure (cfg tn : Z) : option (Z * option (layout * tsst)) :=
+  match trx_layout cfg tn with
+  | None => Some (-22, None)
+  | Some li =>
+      match nth_error tx_layouts (Z.to_nat li) with
+      | Some l => if ly_cfg l =? cfg then Some (0, Some (l, map (fun c => (c, mkst (desc_auto c) 0 0 0)) (trx_configured l))) else None
+      | None => None
+      end
+  end.
+
+(* l1sched_activate_lchan() for every type in the mask: an inactive state becomes active, nothing else changes *)
+Definition ts_activate (mask : Z) (s : tsst) : tsst :=
+  map (fun x : Z * chst => let '(c, st) := x in
+         (c, mkst (cs_active st || ((c <? 62) && Z.testbit mask c)) (cs_nproc st) (cs_nlost st) (cs_last st))) s.
+
+(* the harness overwrites tdma.{num_proc, num_lost, last_proc} of a channel state: (type, np_hi, np_lo, nlost, last) *)
+Definition poke := (Z * Z * Z * Z * Z)%type.
+Definition in32 (x : Z) : bool := (0 <=? x) && (x <? 4294967296).
+Definition poke_ok (p : poke) : bool :=
+  let '(c, hi, lo, nl, la) := p in (0 <=? c) && (c <? tx_CHAN_MAX) && in32 hi && in32 lo && in32 nl && in32 la.
+Definition ts_poke (s : tsst) (p : poke) : tsst :=
+  let '(c, hi, lo, nl, la) := p in
+  match find_st c s with
+  | Some st => set_st c (mkst (cs_active st) (hi * 4294967296 + lo) nl la) s
+  | None => s
+  end.
+
+Fixpoint take_pokes (n : nat) (a : list Z) : option (list poke * list Z) :=
+  match n with
+  | O => Some ([], a)
+  | S n' =>
+      match a with
+      | c :: hi :: lo :: nl :: la :: tl =>
+          match take_pokes n' tl with Some (ps, r) => Some ((c, hi, lo, nl, la) :: ps, r) | None => None end
+      | _ => None
+      end
+  end.
+
+(* [cfg; tn; actmask; npoke; pokes...; n; fn*n] -> (cfg, tn, actmask, pokes, fns) when well-formed (the checks of run_case()) *)
+Definition dec_case (a : list Z) : option (Z * Z * Z * list poke * list Z) :=
+  match a with
+  | cfg :: tn :: am :: np :: tl =>
+      if (0 <=? tn) && (tn <=? 7) && (0 <=? cfg) && (cfg <=? 100000) && (0 <=? am) && (0 <=? np) && (np <=? 64) then
+        match take_pokes (Z.to_nat np) tl with
+        | Some (ps, n :: fns) =>
+            if (0 <=? n) && (Z.of_nat (length fns) =? n) && forallb poke_ok ps && forallb in32 fns then Some (cfg, tn, am, ps, fns) else None
+        | _ => None
+        end
+      else None
+  | _ => None
+  end.
+
+Definition enc_states (s : tsst) : list Z :=
+  Z.of_nat (length s) ::
+  flat_map (fun x : Z * chst => let '(c, st) := x in
+              [c; if cs_active st then 1 else 0; cs_nproc st / 4294967296; cs_nproc st mod 4294967296; cs_nlost st; cs_last st]) s.
+
+Definition enc_rxcalls (subst : Z) (cs : list rxcall) : list Z :=
+  flat_map (fun x : rxcall => let '(c, f, b) := x in [c; f; b; subst; 1]) cs.
+
+(* the prepared timeslot of a case *)
+Definition case_ts (cfg tn am : Z) (ps : list poke) : option (Z * option (layout * tsst)) :=
+  match ts_configure cfg tn with
+  | Some (rc, Some (L, s)) => Some (rc, Some (L, fold_left ts_poke ps (ts_activate am s)))
+  | r => r
+  end.
+
+(* bursts through l1sched_handle_rx_burst(), one after the other; None = crash (a read outside a table / division by zero) *)
+Fixpoint rx_seq (L : layout) (s : tsst) (fns : list Z) : option (list Z * tsst) :=
+  match fns with
+  | [] => Some ([], s)
+  | fn :: tl =>
+      match rx_burst L s fn with
+      | RxOk rc bid sub dir s' =>
+          match rx_seq L s' tl with
+          | Some (out, sf) =>
+              Some ([rc; bid; Z.of_nat (length (rx_calls sub dir))] ++ enc_rxcalls 1 sub ++
+                    enc_rxcalls 0 (match dir with Some d => [d] | None => [] end) ++ out, sf)
+          | None => None
+          end
+      | _ => None
+      end
+  end.
+
+Definition w_c11_rx (a : list Z) : list Z :=
+  match dec_case a with
+  | None => [-999]
+  | Some (cfg, tn, am, ps, fns) =>
+      match case_ts cfg tn am ps with
+      | None => [-998]
+      | Some (rc, None) => rc :: flat_map (fun _ : Z => [-22; 255; 0]) fns ++ [0]
+      | Some (rc, Some (L, s)) =>
+          if ly_period L =? 0 then [rc; -2]
+          else match rx_seq L s fns with Some (out, sf) => rc :: out ++ enc_states sf | None => [rc; -3] end
+      end
+  end.
+
+Fixpoint tx_seq (L : layout) (s : tsst) (fns : list Z) : option (list Z) :=
+  match fns with
+  | [] => Some []
+  | fn :: tl =>
+      match tx_pull L s fn, tx_seq L s tl with
+      | TxOk bid cs, Some out => Some ([bid; Z.of_nat (length cs)] ++ flat_map (fun c => [c; fn; bid; 1]) cs ++ out)
+      | _, _ => None
+      end
+  end.
+
+Definition w_c11_tx (a : list Z) : list Z :=
+  match dec_case a with
+  | None => [-999]
+  | Some (cfg, tn, am, ps, fns) =>
+      match case_ts cfg tn am ps with
+      | None => [-998]
+      | Some (rc, None) => rc :: flat_map (fun _ : Z => [255; 0]) fns ++ [0]
+      | Some (rc, Some (L, s)) =>
+          if ly_period L =? 0 then [rc; -2]
+          else match tx_seq L s fns with Some out => rc :: out ++ enc_states s | None => [rc; -3] end
+      end
+  end.
+
+Fixpoint probe_seq (L : layout) (s : tsst) (fns : list Z) : option (list Z) :=
+  match fns with
+  | [] => Some []
+  | fn :: tl =>
+      match rx_probe L s fn 0, probe_seq L s tl with
+      | PrOk rc fl, Some out => Some (rc :: fl :: out)
+      | _, _ => None
+      end
+  end.
+
+Definition w_c11_probe (a : list Z) : list Z :=
+  match dec_case a with
+  | None => [-999]
+  | Some (cfg, tn, am, ps, fns) =>
+      match case_ts cfg tn am ps with
+      | None => [-998]
+      | Some (rc, None) => rc :: flat_map (fun _ : Z => [-22; 0]) fns ++ [0]
+      | Some (rc, Some (L, s)) =>
+          if ly_period L =? 0 then [rc; -2]
+          else match probe_seq L s fns with Some out => rc :: out ++ enc_states s | None => [rc; -3] end
+      end
   end.
